@@ -4,7 +4,7 @@ from .common import _, end, _c
 from .generic import string_literal, name
 from ..parser.blueprints import StickyNoteBlueprint
 
-sticky_note = _c + pp.CaselessLiteral('note') + _ + (name('name') + _ - '{' + _ - string_literal('text') + _ - '}') + end
+sticky_note = _c + pp.CaselessKeyword('note') + _ + (name('name') + _ - '{' + _ - string_literal('text') + _ - '}') + end
 
 
 def parse_sticky_note(s, loc, tok):
